@@ -4,6 +4,7 @@ import Frp.Model.Watchdog
 import Frp.Model.Reconnect
 import Frp.Model.SessEnd
 import Frp.Model.Rereg
+import Frp.Model.Dispatch
 import Frp.Props.C14
 /-
   Driver engine "wait" (C14): replays the harness trace of the real back-off manager, the real
@@ -306,6 +307,16 @@ def wdStep (st : WaitState) (id : String) (impl : String) : WaitState × Verdict
 
 def msToNs (ms : Nat) : Nat := ms * 1000000
 
+/-- what happened to the work connections of one scripted connection (ms after the login) -/
+inductive WkEv
+  | req (t : Nat)               -- ReqWorkConn written
+  | rel (t : Nat) (w : Nat)     -- StartWorkConn written on / close of the w-th work connection that arrived
+
+structure WorkRec where
+  arrived : Nat                 -- NewWorkConn received while the control connection was up
+  endMs   : Nat                 -- the control connection ended this long after the login
+  evs     : List WkEv
+
 /-- one connection record of the scripted server: kind, gap before the login (ms), time from the last
     good pong / error pong to the close (ms), gaps between pings (ms), registered-proxy snapshots -/
 structure ConnRec where
@@ -314,16 +325,43 @@ structure ConnRec where
   close : Nat := 0
   pings : List Nat := []
   snaps : List String := []
+  work  : Option WorkRec := none
+
+def parseWkEv (s : String) : Option WkEv :=
+  match s.toList with
+  | 'q' :: r => (String.ofList r).toNat?.map .req
+  | c :: r =>
+    if c = 's' ∨ c = 'z' then
+      match (String.ofList r).splitOn "." with
+      | [t, w] => match t.toNat?, w.toNat? with
+        | some t, some w => some (.rel t w)
+        | _, _ => none
+      | _ => none
+    else none
+  | [] => none
+
+def parseWork (s : String) : Option WorkRec :=
+  match s.splitOn "/" with
+  | [n, e, evs] =>
+    match n.toNat?, e.toNat?, (if evs = "-" then some [] else (evs.splitOn ";").mapM parseWkEv) with
+    | some n, some e, some evs => some ⟨n, e, evs⟩
+    | _, _, _ => none
+  | _ => none
 
 def parseConn (s : String) : Option ConnRec :=
-  match s.splitOn ":" with
-  | ["r", g] => g.toNat?.map (fun g => ⟨"r", g, 0, [], []⟩)
-  | [k, g, c, pg, sn] =>
+  let base (k g c pg sn : String) : Option ConnRec :=
     match g.toNat?, c.toNat? with
     | some g, some c =>
       let ps := if pg = "-" then some [] else (pg.splitOn "/").mapM String.toNat?
-      ps.map (fun ps => ⟨k, g, c, ps, sn.splitOn ";"⟩)
+      ps.map (fun ps => ⟨k, g, c, ps, sn.splitOn ";", none⟩)
     | _, _ => none
+  match s.splitOn ":" with
+  | ["r", g] => g.toNat?.map (fun g => ⟨"r", g, 0, [], [], none⟩)
+  | [k, g, c, pg, sn] => base k g c pg sn
+  | [k, g, c, pg, sn, wk] => do
+    let r ← base k g c pg sn
+    let w ← parseWork wk
+    pure { r with work := some w }
   | _ => none
 
 /-- `0` | `a1+b2+…` → configurations (name = letter code, variant = the digits) -/
@@ -348,6 +386,7 @@ def cwParseView (s : String) : Option (List (Nat × Nat)) :=
 /-- script item: connection kind + reloads (outage?, set) in script order -/
 structure CwItem where
   kind : String
+  arg : Nat := 0              -- p/b: pings answered; c: ms until the cut
   inConn : List (List Wrapper.Cfg) := []
   outage : List (List Wrapper.Cfg) := []
 
@@ -355,7 +394,8 @@ def parseCwItem (s : String) : Option CwItem :=
   match s.splitOn "@" with
   | [] => none
   | c :: rls => do
-    let mut it : CwItem := { kind := (c.take 1).toString }
+    let head := (c.splitOn "/").headD c      -- a work-connection schedule may follow: /q<ms>/s<ms>/z<ms>
+    let mut it : CwItem := { kind := (head.take 1).toString, arg := ((head.drop 1).toString.toNat?).getD 0 }
     for r in rls do
       match r.splitOn ":" with
       | [w, set] =>
@@ -370,6 +410,55 @@ def cwCtlView (s : Rereg.St) : List (Nat × Nat) :=
   | some c => Rereg.view c.pm
   | none => []
 
+/-! #### the dispatcher in front of the client watchdog (Frp/Model/Dispatch.lean) -/
+
+def dispInsert (x : Nat × Dispatch.Lbl) : List (Nat × Dispatch.Lbl) → List (Nat × Dispatch.Lbl)
+  | [] => [x]
+  | y :: ys => if x.1 < y.1 then x :: y :: ys else y :: dispInsert x ys
+
+/-- the history of one scripted connection as the dispatcher model sees it: the Pongs the scripted
+    server wrote (it answers a ping the moment it reads it: `item` says which pings it answers and
+    how), the ReqWorkConn it wrote, the work connections it used or closed; `checks` adds a checker
+    firing every second (the real phase is unknown: used only where the phase does not matter) -/
+def dispHistory (item : CwItem) (pings : List Nat) (w : WorkRec) (checks : Bool) (reqBefore : Nat) :
+    List (Nat × Dispatch.Lbl) := Id.run do
+  let mut evs : List (Nat × Dispatch.Lbl) := []
+  let mut t := 0
+  let mut j := 0
+  for g in pings do
+    t := t + g
+    if item.kind = "c" ∨ j < item.arg then evs := dispInsert (t, .send (.pong true)) evs
+    else if item.kind = "b" ∧ j = item.arg then evs := dispInsert (t, .send (.pong false)) evs
+    j := j + 1
+  for e in w.evs do
+    match e with
+    | .req tq => if tq ≤ reqBefore then evs := dispInsert (tq, .send .reqWork) evs
+    | .rel tr wi => evs := dispInsert (tr, .release wi) evs
+  if checks then
+    for q in List.range (w.endMs / 1000) do
+      evs := dispInsert ((q + 1) * 1000, .check) evs
+  return evs
+
+/-- returns (problem?, late requests): the model with the code's registration mode against what the
+    scripted server saw -/
+def dispCheck (I T : Nat) (k : Nat) (item : CwItem) (r : ConnRec) (w : WorkRec) (carry : Nat) : Option String × Nat :=
+  let cfg : Dispatch.Cfg := { wd := Watchdog.clientCfg (Int.ofNat I) (Int.ofNat T) 1000, asyncReq := C14.codeReqAsync }
+  let all := Dispatch.erun cfg {} (dispHistory item r.pings w false w.endMs)
+  let early := Dispatch.erun cfg {} (dispHistory item r.pings w false (w.endMs - 300))
+  let timed := Dispatch.erun cfg {} (dispHistory item r.pings w true w.endMs)
+  let late := all.nextW - early.nextW
+  let problem : Option String :=
+    -- every request that had 300 ms to be served opened a work connection, idle earlier ones or not
+    if w.arrived < early.nextW ∨ w.arrived > all.nextW + carry then
+      some s!"conn{k}:workconns∈[{early.nextW},{all.nextW + carry}]"
+    -- lastPong of the model: the session ends only in (lastPong + T, lastPong + T + 1 s + slack]
+    else if r.kind = "p" ∧ !C14.detectHolds (T * 1000) 1000 400 30 all.wd.last (some w.endMs) w.endMs then
+      some s!"conn{k}:model-close∈({all.wd.last + T * 1000},{all.wd.last + T * 1000 + 1000}+slack]ms"
+    else if r.kind = "c" ∧ timed.wd.closed.isSome then some s!"conn{k}:model-closed"
+    else if r.kind = "p" ∧ item.kind = "c" ∧ timed.wd.closed.isNone then some s!"conn{k}:model-open"
+    else none
+  (problem, late)
+
 def cwCheck (I T : Nat) (set0 : List Wrapper.Cfg) (script : List CwItem) (recs : List ConnRec) : Option String × Bool := Id.run do
   let mut s := Reconnect.init
   let mut rs : Rereg.St := (Rereg.step { early := C14.codeEarly, store := set0 } 0 .loopStart).1
@@ -378,6 +467,7 @@ def cwCheck (I T : Nat) (set0 : List Wrapper.Cfg) (script : List CwItem) (recs :
   let mut k := 0
   let mut now := 0
   let mut prevEv : Option Reconnect.Ev := none
+  let mut lateReqs := 0
   let slackMs := 400
   if recs.length ≠ script.length then problem := some s!"conns={recs.length}≠{script.length}"
   for r in recs do
@@ -426,13 +516,16 @@ def cwCheck (I T : Nat) (set0 : List Wrapper.Cfg) (script : List CwItem) (recs :
       rs := (Rereg.step rs 0 .loopStart).1
       -- pings: first at once, then every I seconds (never later than I + slack)
       let mut j := 0
+      let mut prevLate := 0      -- a ping that was seen late makes the next measured gap shorter by as much
       for g in r.pings do
         if j = 0 then
           if g > slackMs then problem := problem <|> some s!"conn{k}:first-ping-late"
+          prevLate := g
         else
-          if g + 5 < I * 1000 ∨ g > I * 1000 + slackMs then
+          if g + prevLate + 5 < I * 1000 ∨ g > I * 1000 + slackMs then
             problem := problem <|> some s!"conn{k}:ping-gap"
           if g > I * 1000 + slackMs then prop := false
+          prevLate := (g + prevLate) - I * 1000
         j := j + 1
       if r.kind = "p" then
         -- silent server: the client closes in (T, T + 1 s + slack] after the last pong
@@ -445,6 +538,13 @@ def cwCheck (I T : Nat) (set0 : List Wrapper.Cfg) (script : List CwItem) (recs :
         if r.close > slackMs then
           problem := problem <|> some s!"conn{k}:bad-pong-not-closing"
           prop := false
+      -- idle / used work connections: the dispatcher model with the code's registration mode
+      match r.work with
+      | some w =>
+        let (pb, late) := dispCheck I T k item r w lateReqs
+        problem := problem <|> pb
+        lateReqs := late
+      | none => lateReqs := 0
       now := now + msToNs r.close
     for cf in item.outage do
       rs := (Rereg.step rs 0 (.reload cf)).1
